@@ -336,7 +336,7 @@ func (r *rec) OnEvent(s *types.Status) {
 		panic("RENDER: " + msg)
 	}
 }
-func (r *rec) OnError(error) bool { r.n++; return true }
+func (r *rec) OnError(error) bool { r.n++; return r.n%2 == 0 } // true and false in turn: what the callback returns never crashes the listener
 
 func checkListen(c replyCase) *rp.Fail {
 	nt := false
